@@ -5,6 +5,7 @@ import (
 	"reflect"
 	"strconv"
 	"strings"
+	"sync"
 	"time"
 
 	"github.com/tormoder/fit"
@@ -59,7 +60,23 @@ func (nullLogger) Print(...interface{})          {}
 func (nullLogger) Printf(string, ...interface{}) {}
 func (nullLogger) Println(...interface{})        {}
 
+// option VALUES are created once per option set and reused by every call of the (sequential) harness: a
+// DecodeOption is configuration, and results must not depend on whether the caller builds it anew for each call
+var optionValues = map[optSet][]fit.DecodeOption{}
+var optionValuesMu sync.Mutex // the race-enabled C09 binary calls options() from many goroutines
+
 func (o optSet) options() []fit.DecodeOption {
+	optionValuesMu.Lock()
+	defer optionValuesMu.Unlock()
+	if v, ok := optionValues[o]; ok {
+		return v
+	}
+	v := o.freshOptions()
+	optionValues[o] = v
+	return v
+}
+
+func (o optSet) freshOptions() []fit.DecodeOption {
 	var out []fit.DecodeOption
 	if o.Logger {
 		out = append(out, fit.WithLogger(nullLogger{}))
